@@ -63,10 +63,10 @@ func newWorld() *world {
 		}
 		w.ics[name] = &ic
 	}
-	mk("i1", false)
-	mk("i2", false)
-	mk("i3F", true)
-	mk("i0", false)
+	// (made in one loop: closures of one function literal share their code address, whatever they capture)
+	for _, n := range []string{"i1", "i2", "i3F", "i0"} {
+		mk(n, n == "i3F")
+	}
 	// both instances are built from ONE caller-owned slice with spare capacity
 	common := make([]*network.Interceptor, 0, len(initialCommon)+3)
 	for _, n := range initialCommon {
